@@ -328,6 +328,7 @@ class Interp:
                 rec["fut"] = f2
                 rec["submitted"] = True
                 self.futs[nid] = f2
+        self.obs.data.setdefault("cb_registered", []).append((o["f"], mode))
         f.add_done_callback(cb)
         return {}
 
